@@ -153,7 +153,97 @@ pub fn exec_sdd<'a>(b: &'a CompressionSddBuilder<'a>, ops: &[Op]) -> Vec<SddPtr<
     pool
 }
 
+/// "wide partitions": a vtree whose left child has four variables and whose right child has two;
+/// functions given by a table x-minterm -> function of (y0, y1), so that decision nodes with up
+/// to sixteen elements arise, the same sub (and its complement) recurring among them; the same
+/// function is reached by two histories (conjunction of two tables / the pointwise table)
+fn wide_program(rng: &mut Rng) -> (Vec<Op>, VT) {
+    let mut labels = rng.perm(6);
+    let (y0, y1) = (labels.pop().unwrap(), labels.pop().unwrap());
+    let xs = labels; // four x variables
+    let leaf = |v: usize| Box::new(VT::Leaf(v));
+    let left = if rng.coin() {
+        VT::Node(leaf(xs[0]), Box::new(VT::Node(leaf(xs[1]), Box::new(VT::Node(leaf(xs[2]), leaf(xs[3]))))))
+    } else {
+        VT::Node(Box::new(VT::Node(leaf(xs[0]), leaf(xs[1]))), Box::new(VT::Node(leaf(xs[2]), leaf(xs[3]))))
+    };
+    let vt = VT::Node(Box::new(left), Box::new(VT::Node(leaf(y0), leaf(y1))));
+    let mut ops: Vec<Op> = Vec::new();
+    // the functions of (y0, y1), indexed by their 4-bit truth table (bit = y0 + 2*y1)
+    ops.push(Op::Var(y0, true)); // 0
+    ops.push(Op::Var(y1, true)); // 1
+    ops.push(Op::And(0, 1)); // 2: 1000
+    ops.push(Op::Or(0, 1)); // 3: 1110
+    ops.push(Op::Xor(0, 1)); // 4: 0110
+    ops.push(Op::Neg(0)); // 5
+    ops.push(Op::Neg(1)); // 6
+    ops.push(Op::Neg(2)); // 7
+    ops.push(Op::Neg(3)); // 8
+    ops.push(Op::Neg(4)); // 9
+    ops.push(Op::Const(true)); // 10
+    ops.push(Op::Const(false)); // 11
+    ops.push(Op::And(5, 1)); // 12: !y0 . y1
+    ops.push(Op::And(0, 6)); // 13: y0 . !y1
+    ops.push(Op::Neg(12)); // 14
+    ops.push(Op::Neg(13)); // 15
+    // truth tables (bit k = value at y0 = k&1, y1 = k>>1) of pool entries 0..15: all sixteen functions
+    let tts: [u8; 16] = [
+        0b1010, 0b1100, 0b1000, 0b1110, 0b0110, 0b0101, 0b0011, 0b0111, 0b0001, 0b1001, 0b1111, 0b0000, 0b0100, 0b0010, 0b1011,
+        0b1101,
+    ];
+    // the sixteen x-minterms
+    let mut cubes: Vec<usize> = Vec::new();
+    for m in 0..16usize {
+        ops.push(Op::Var(xs[0], m & 1 == 1));
+        let mut acc = ops.len() - 1;
+        for k in 1..4 {
+            ops.push(Op::Var(xs[k], (m >> k) & 1 == 1));
+            let l = ops.len() - 1;
+            ops.push(Op::And(acc, l));
+            acc = ops.len() - 1;
+        }
+        cubes.push(acc);
+    }
+    let table = |rng: &mut Rng| -> Vec<usize> { (0..16).map(|_| rng.below(16) as usize).collect() };
+    let build = |ops: &mut Vec<Op>, t: &Vec<usize>, order: &Vec<usize>| -> usize {
+        let mut acc: Option<usize> = None;
+        for &m in order.iter() {
+            ops.push(Op::And(cubes[m], t[m]));
+            let term = ops.len() - 1;
+            acc = Some(match acc {
+                None => term,
+                Some(a) => {
+                    ops.push(Op::Or(a, term));
+                    ops.len() - 1
+                }
+            });
+        }
+        acc.unwrap()
+    };
+    let (tf, tg) = (table(rng), table(rng));
+    let o1 = rng.perm(16);
+    let o2 = rng.perm(16);
+    let f = build(&mut ops, &tf, &o1);
+    let g = build(&mut ops, &tg, &o2);
+    ops.push(Op::And(f, g));
+    ops.push(Op::Or(f, g));
+    // the pointwise tables of f.g, built directly in a third order (must be the same nodes)
+    let find = |tt: u8| tts.iter().position(|x| *x == tt).unwrap();
+    let th: Vec<usize> = (0..16).map(|m| find(tts[tf[m]] & tts[tg[m]])).collect();
+    let o3 = rng.perm(16);
+    let _h2 = build(&mut ops, &th, &o3);
+    (ops, vt)
+}
+
 pub fn sdd_line(rng: &mut Rng, maxvars: usize, maxops: usize) -> String {
+    // one case in ten is a wide-partition program (decided on a copy of the generator state, so
+    // that every other case is generated exactly as before)
+    let mut probe = rng.clone();
+    if maxvars >= 6 && probe.chance(1, 10) {
+        if std::env::var("HARNESS_DEBUG").is_ok() { eprintln!("WIDE"); }
+        let (ops, vt) = wide_program(&mut probe);
+        return sdd_report(6, &vt, true, 0, &ops);
+    }
     let n = rng.range(2, maxvars as u64) as usize;
     let nops = rng.range(6, maxops as u64) as usize;
     let prog = gen_program_x(rng, n, nops, false, true);
@@ -198,6 +288,14 @@ pub fn sdd_line(rng: &mut Rng, maxvars: usize, maxops: usize) -> String {
             }
         }
     }
+    sdd_report(n, &vt, compress, tbl, &prog.ops)
+}
+
+fn sdd_report(n: usize, vt: &VT, compress: bool, tbl: usize, ops_: &[Op]) -> String {
+    struct P<'x> {
+        ops: &'x [Op],
+    }
+    let prog = P { ops: ops_ };
     let head = format!(
         "sdd n={} vtree={} compress={} tbl={} ops={}",
         n,
